@@ -17,6 +17,12 @@ def expect {w : Nat} (inj : BitVec w → CVal) (r : Option (BitVec w)) (m : Mem)
   | some v => .ret (some (inj v)) m
   | none => .trap
 
+theorem expect_some {w : Nat} (inj : BitVec w → CVal) (v : BitVec w) (m : Mem) : expect inj (some v) m = .ret (some (inj v)) m := rfl
+theorem expect_none {w : Nat} (inj : BitVec w → CVal) (m : Mem) : expect inj none m = .trap := rfl
+theorem expect_ite {w : Nat} {c : Prop} [Decidable c] (inj : BitVec w → CVal) (a b : Option (BitVec w)) (m : Mem) :
+    expect inj (if c then a else b) m = if c then expect inj a m else expect inj b m := by
+  split <;> rfl
+
 /-! ### WebAssembly semantics of the rows (from Base/WasmNum.lean) -/
 def wBin {w : Nat} (k : BinK) (x y : BitVec w) : Option (BitVec w) := binop k x y
 def wRel {w : Nat} (k : RelK) (x y : BitVec w) : Option (BitVec 32) := some (b2i (relop k x y))
@@ -62,23 +68,23 @@ def Sound2 {wa wb wr : Nat} (ia : BitVec wa → CVal) (ib : BitVec wb → CVal) 
 /-! ### operand guards of the `_partial` theorems (fixed by the instruction, independent of the emitted C) -/
 namespace Guard
 /-- no signed overflow -/
-def addOk {w : Nat} (x y : BitVec w) : Prop := BitVec.saddOverflow x y = false
-def subOk {w : Nat} (x y : BitVec w) : Prop := BitVec.ssubOverflow x y = false
-def mulOk {w : Nat} (x y : BitVec w) : Prop := BitVec.smulOverflow x y = false
+abbrev addOk {w : Nat} (x y : BitVec w) : Prop := BitVec.saddOverflow x y = false
+abbrev subOk {w : Nat} (x y : BitVec w) : Prop := BitVec.ssubOverflow x y = false
+abbrev mulOk {w : Nat} (x y : BitVec w) : Prop := BitVec.smulOverflow x y = false
 /-- the division is defined in both languages -/
-def divS {w : Nat} (x y : BitVec w) : Prop := y ≠ 0 ∧ ¬(x = BitVec.intMin w ∧ y = -1)
-def divU {w : Nat} (_x y : BitVec w) : Prop := y ≠ 0
+abbrev divS {w : Nat} (x y : BitVec w) : Prop := y ≠ 0 ∧ ¬(x = BitVec.intMin w ∧ y = -1)
+abbrev divU {w : Nat} (_x y : BitVec w) : Prop := y ≠ 0
 /-- shift count below the width (as an unsigned number) -/
-def cnt32 (_x y : BitVec 32) : Prop := y.ult 32#32 = true
+abbrev cnt32 (_x y : BitVec 32) : Prop := y.ult 32#32 = true
 /-- the count (mod width) is `c`, the value is non-negative and `x·2^c` is representable as a non-negative signed number -/
-def shlRepr {w : Nat} (x c : BitVec w) : Prop := x.msb = false ∧ (x <<< c).sshiftRight' c = x
-def shl32 (x y : BitVec 32) : Prop := y.ult 32#32 = true ∧ shlRepr x y
-def shl64 (x y : BitVec 64) : Prop := shlRepr x (y % 64#64)
+abbrev shlRepr {w : Nat} (x c : BitVec w) : Prop := x.msb = false ∧ (x <<< c).sshiftRight' c = x
+abbrev shl32 (x y : BitVec 32) : Prop := y.ult 32#32 = true ∧ shlRepr x y
+abbrev shl64 (x y : BitVec 64) : Prop := shlRepr x (y % 64#64)
 /-- rotations: the value is non-negative, the left-shifted part is representable, and `width - count` does not overflow -/
-def rotl32 (x y : BitVec 32) : Prop := shlRepr x (y % 32#32) ∧ BitVec.ssubOverflow 31#32 y = false ∧ BitVec.saddOverflow (31#32 - y) 1#32 = false
-def rotr32 (x y : BitVec 32) : Prop := shlRepr x ((32#32 - y) % 32#32) ∧ BitVec.ssubOverflow 31#32 y = false ∧ BitVec.saddOverflow (31#32 - y) 1#32 = false
-def rotl64 (x y : BitVec 64) : Prop := shlRepr x (y % 64#64) ∧ BitVec.ssubOverflow 63#64 y = false ∧ BitVec.saddOverflow (63#64 - y) 1#64 = false
-def rotr64 (x y : BitVec 64) : Prop := shlRepr x ((64#64 - y) % 64#64) ∧ BitVec.ssubOverflow 63#64 y = false ∧ BitVec.saddOverflow (63#64 - y) 1#64 = false
+abbrev rotl32 (x y : BitVec 32) : Prop := shlRepr x (y % 32#32) ∧ BitVec.ssubOverflow 31#32 y = false ∧ BitVec.saddOverflow (31#32 - y) 1#32 = false
+abbrev rotr32 (x y : BitVec 32) : Prop := shlRepr x ((32#32 - y) % 32#32) ∧ BitVec.ssubOverflow 31#32 y = false ∧ BitVec.saddOverflow (31#32 - y) 1#32 = false
+abbrev rotl64 (x y : BitVec 64) : Prop := shlRepr x (y % 64#64) ∧ BitVec.ssubOverflow 63#64 y = false ∧ BitVec.saddOverflow (63#64 - y) 1#64 = false
+abbrev rotr64 (x y : BitVec 64) : Prop := shlRepr x ((64#64 - y) % 64#64) ∧ BitVec.ssubOverflow 63#64 y = false ∧ BitVec.saddOverflow (63#64 - y) 1#64 = false
 end Guard
 
 end WaVerif.C03
